@@ -174,7 +174,18 @@ func (g *ownGen) expr(e *genv, t gty, d int) (string, int) {
 		}
 		return g.literal(t, e, d)
 	case tW:
-		switch r.Intn(4) {
+		switch r.Intn(5) {
+		case 4:
+			// a Text compared with a fresh copy of itself (equal length, possibly different capacity)
+			if vs := e.ofType(tT, false); len(vs) > 0 {
+				v := prng.Pick(r, vs)
+				g.role(tT, "compared-with-own-copy")
+				if r.Bool() {
+					return fmt.Sprintf("(%s gleich (%s verkettet mit \"\") ist)", v.name, v.name), 0
+				}
+				return fmt.Sprintf("((\"\" verkettet mit %s) gleich %s ist)", v.name, v.name), 0
+			}
+			return g.literal(t, e, d)
 		case 0:
 			a, _ := g.expr(e, tT, d-1)
 			b, _ := g.expr(e, tT, d-1)
@@ -291,7 +302,12 @@ func (g *ownGen) expr(e *genv, t gty, d int) (string, int) {
 		}
 		return g.literal(t, e, d)
 	case tSL:
-		switch r.Intn(4) {
+		switch r.Intn(5) {
+		case 4:
+			a, _ := g.expr(e, tS, d-1)
+			b, _ := g.expr(e, tS, d-1)
+			g.role(tS, "two-values-concatenated-to-list")
+			return fmt.Sprintf("(%s verkettet mit %s)", a, b), 2
 		case 0:
 			a, na := g.expr(e, tSL, d-1)
 			s, _ := g.expr(e, tS, d-1)
@@ -415,6 +431,14 @@ func (g *ownGen) call(e *genv, f *gfunc, d int) (string, bool) {
 				return "", false
 			}
 			v := prng.Pick(g.r, vs)
+			// prefer the variable that was already passed by value in this call
+			if lastVar != "" && g.r.Chance(0.6) {
+				for _, c := range vs {
+					if c.name == lastVar {
+						v = c
+					}
+				}
+			}
 			arg = v.name
 			g.role(p.ty, "argument-by-Referenz")
 			if lastVar == v.name {
@@ -425,7 +449,9 @@ func (g *ownGen) call(e *genv, f *gfunc, d int) (string, bool) {
 			if len(vs) > 0 && g.r.Chance(0.6) {
 				v := prng.Pick(g.r, vs)
 				arg = v.name
-				lastVar = v.name
+				if !v.ro {
+					lastVar = v.name
+				}
 				g.role(p.ty, "argument-by-value-variable")
 			} else {
 				arg, _ = g.expr(e, p.ty, d)
@@ -501,7 +527,17 @@ func (g *ownGen) stmt(e *genv, ind int) {
 		v.minLen = min(v.minLen, n)
 		g.role(t, "assignment-target")
 	case k == 5: // assignment into a list element or a field
-		switch r.Intn(3) {
+		switch r.Intn(4) {
+		case 3:
+			if vs := e.ofType(tT, true); len(vs) > 0 {
+				v := prng.Pick(r, vs)
+				if v.minLen >= 1 {
+					c, _ := g.literal(tB, e, 0)
+					g.line(ind, fmt.Sprintf("Speichere %s in %s an der Stelle %d.", c, v.name, r.Range(1, v.minLen)))
+					g.role(tT, "character-replaced-in-place")
+					return
+				}
+			}
 		case 0:
 			if vs := e.ofType(tTL, true); len(vs) > 0 {
 				v := prng.Pick(r, vs)
@@ -533,16 +569,6 @@ func (g *ownGen) stmt(e *genv, ind int) {
 					x, _ := g.expr(e, tS, 2)
 					g.line(ind, fmt.Sprintf("Speichere %s in %s an der Stelle %d.", x, v.name, r.Range(1, v.minLen)))
 					g.role(tS, "list-element-assignment")
-					return
-				}
-			}
-		case 3:
-			if vs := e.ofType(tN, true); len(vs) > 0 {
-				v := prng.Pick(r, vs)
-				if v.minLen >= 1 {
-					x, _ := g.expr(e, tTL, 2)
-					g.line(ind, fmt.Sprintf("Speichere %s in %s an der Stelle %d.", x, v.name, r.Range(1, v.minLen)))
-					g.role(tTL, "nested-list-element-assignment")
 					return
 				}
 			}
@@ -626,10 +652,35 @@ func (g *ownGen) loopStmt(e *genv, ind int) {
 	defer func() { g.loop-- }()
 	m := e.mark()
 	defer e.reset(m)
-	switch r.Intn(5) {
+	// a small count that needs a temporary list / text to be computed: (die Länge von <heap expr>) is between 0 and ~8
+	smallCount := func() string {
+		if r.Chance(0.5) {
+			return fmt.Sprint(r.Range(1, 3))
+		}
+		lt := prng.Pick(r, []gty{tZL, tTL, tT})
+		x, _ := g.literal(lt, e, 1)
+		if vs := e.ofType(lt, false); len(vs) > 0 && r.Bool() {
+			v := prng.Pick(r, vs)
+			x = fmt.Sprintf("(%s verkettet mit %s)", x, v.name)
+			if lt == tT {
+				x = fmt.Sprintf("((%s verkettet mit \"\") im Bereich von 1 bis 3)", v.name)
+			} else {
+				x = fmt.Sprintf("((%s verkettet mit %s) im Bereich von 1 bis 3)", x, v.name)
+			}
+		}
+		g.role(lt, "temporary-in-loop-header")
+		return fmt.Sprintf("(die Länge von %s)", x)
+	}
+	switch r.Intn(6) {
+	case 5:
+		// counting down with a step, all three header expressions may allocate
+		iv := &gvar{name: g.fresh("i"), ty: tZ, ro: true}
+		g.line(ind, fmt.Sprintf("Für jede Zahl %s von %s bis 1 mit Schrittgröße (0 minus 1), mache:", iv.name, smallCount()))
+		e.push(iv)
+		g.block(e, ind+1, r.Range(1, 3))
 	case 0:
 		iv := &gvar{name: g.fresh("i"), ty: tZ, ro: true}
-		g.line(ind, fmt.Sprintf("Für jede Zahl %s von 1 bis %d, mache:", iv.name, r.Range(1, 4)))
+		g.line(ind, fmt.Sprintf("Für jede Zahl %s von 1 bis %s, mache:", iv.name, smallCount()))
 		e.push(iv)
 		g.block(e, ind+1, r.Range(1, 3))
 	case 1:
@@ -658,14 +709,21 @@ func (g *ownGen) loopStmt(e *genv, ind int) {
 		g.line(ind, fmt.Sprintf("Die Zahl %s ist 0.", cv.name))
 		e.push(cv)
 		m2 := e.mark()
-		g.line(ind, fmt.Sprintf("Solange %s kleiner als %d ist, mache:", cv.name, r.Range(1, 3)))
-		g.line(ind+1, fmt.Sprintf("Erhöhe %s um 1.", cv.name))
-		g.block(e, ind+1, r.Range(1, 3))
+		if r.Bool() {
+			g.line(ind, fmt.Sprintf("Solange %s kleiner als %s ist, mache:", cv.name, smallCount()))
+			g.line(ind+1, fmt.Sprintf("Erhöhe %s um 1.", cv.name))
+			g.block(e, ind+1, r.Range(1, 3))
+		} else {
+			g.line(ind, "Mache:")
+			g.line(ind+1, fmt.Sprintf("Erhöhe %s um 1.", cv.name))
+			g.block(e, ind+1, r.Range(1, 3))
+			g.line(ind, fmt.Sprintf("Solange %s kleiner als %s ist.", cv.name, smallCount()))
+		}
 		e.reset(m2)
 	default:
 		g.line(ind, "Wiederhole:")
 		g.block(e, ind+1, r.Range(1, 2))
-		g.line(ind, fmt.Sprintf("%d Mal.", r.Range(1, 3)))
+		g.line(ind, fmt.Sprintf("%s Mal.", smallCount()))
 	}
 }
 
@@ -755,6 +813,20 @@ func genOwnProgram(r *prng.R, idx int) *HProg {
 				x, _ := g.expr(e, p.ty, 1)
 				g.line(1, fmt.Sprintf("Speichere %s in %s.", x, p.name))
 				g.role(p.ty, "written-through-Referenz")
+			}
+		}
+		// ... and then still uses its by-value parameters
+		for k, p := range f.params {
+			if f.refs[k] {
+				continue
+			}
+			switch p.ty {
+			case tT, tZL, tTL, tZ:
+				g.line(1, fmt.Sprintf("Schreibe %s auf eine Zeile.", p.name))
+			case tS:
+				g.line(1, fmt.Sprintf("Schreibe (name von %s) auf eine Zeile.", p.name))
+			case tSL:
+				g.line(1, fmt.Sprintf("Schreibe (die Länge von %s) auf eine Zeile.", p.name))
 			}
 		}
 		if f.hasRet {
